@@ -127,6 +127,7 @@ def run(rep, prog, tier):
         rep.saw_function(rel + ':' + q)
         generic.rule_name(rep, prog, m, fn)
         generic.rule_def(rep, m, fn)
+        generic.rule_closure(rep, m, fn)      # size / rate functions built per population must bind their own values
         pn = pn_by_mod[m.name].get(q)
         params = positional_params(fn)
         # ---- (1) __param_names__ == unpacking -----------------------------------------------------------------
